@@ -48,6 +48,14 @@ var hookOnly = map[string]bool{
 	"github.com/gotd/td/crypto": true,
 }
 
+// packages of which only the listed files are rewritten. bin is the hot
+// encode/decode package and has no concurrency of its own, but bin.Pool wraps
+// a sync.Pool whose hit-or-miss (and so the capacity of the buffer a caller
+// gets) must be a function of the run.
+var onlyFiles = map[string]map[string]bool{
+	"github.com/gotd/td/bin": {"pool.go": true},
+}
+
 type pkgInfo struct {
 	ImportPath string
 	Dir        string
@@ -244,9 +252,16 @@ func instrumentPackage(tp *pkgInfo, pkgs map[string]*pkgInfo, outDir string, ove
 		c := &fileCtx{pkg: tp.ImportPath, fset: fset, info: info, file: af, ordinals: ordinals,
 			commRecv: map[ast.Node]bool{}, rangeK: map[*ast.RangeStmt]string{}, recv2: map[*ast.UnaryExpr]bool{}}
 		var src []byte
+		if only := onlyFiles[tp.ImportPath]; only != nil && !only[name] {
+			continue
+		}
 		if hookOnly[tp.ImportPath] {
 			// only the randomness seam: crypto.DefaultRand() consults the simulation
+			// ... and package-level sync state (Once, Pool, Map) that is per run
 			src = c.hookDefaultRand()
+			if src == nil {
+				src = c.swapSyncOnly()
+			}
 			if src == nil {
 				continue
 			}
@@ -530,6 +545,30 @@ func (c *fileCtx) hookDefaultRand() []byte {
 	astutil.AddNamedImport(c.fset, f, "simrt", simrtPath)
 	var buf bytes.Buffer
 	buf.WriteString(header)
+	if err := format.Node(&buf, c.fset, f); err != nil {
+		fail("%s: print: %v", c.fset.Position(f.Package).Filename, err)
+	}
+	return buf.Bytes()
+}
+
+// swapSyncOnly rewrites nothing but the "sync" import (to simsync); nil if the
+// file does not import sync.
+func (c *fileCtx) swapSyncOnly() []byte {
+	f := c.file
+	found := false
+	for _, im := range f.Imports {
+		if p, _ := strconv.Unquote(im.Path.Value); p == "sync" {
+			im.Path.Value = strconv.Quote(simsyncPath)
+			if im.Name == nil {
+				im.Name = ast.NewIdent("sync")
+			}
+			found = true
+		}
+	}
+	if !found {
+		return nil
+	}
+	var buf bytes.Buffer
 	if err := format.Node(&buf, c.fset, f); err != nil {
 		fail("%s: print: %v", c.fset.Position(f.Package).Filename, err)
 	}
